@@ -255,6 +255,8 @@ VARIANTS = [
     V("integer bin edges cast to float64 before the IntervalIndex is built", ("C07",), "R-EDGEVALUE", "core.py", '                out.append(pd.IntervalIndex.from_breaks(ex))', '                edges = np.asarray(ex)\n                if edges.dtype.kind in "iu":\n                    edges = edges.astype(np.float64)\n                out.append(pd.IntervalIndex.from_breaks(edges))', must_mention="2**53"),
     V("twin: bin edges wrapped with np.asarray first", ("C07",), "", "core.py", '                out.append(pd.IntervalIndex.from_breaks(ex))', '                edges = np.asarray(ex)\n                out.append(pd.IntervalIndex.from_breaks(edges))', expect="silent"),
     V("intervals with gaps binned as if contiguous", ("C07",), "R-CLOSEDSIDE", "core.py", '            rights = expect.right.to_numpy()\n            if len(rights) > 1 and not np.array_equal(rights[:-1], expect.left.to_numpy()[1:]):', '            rights = bins[1:]\n            if False:', must_mention="gap"),
+    V("xarray option set as a plain statement in the shortcut", ("C14",), "R-OPTIONS", "xarray.py", '        result = getattr(ds_broad, func)(dim=dim_tuple, **kwargs)', '        xr.set_options(keep_attrs=keep_attrs)\n        result = getattr(ds_broad, func)(dim=dim_tuple, **kwargs)', must_mention="call history"),
+    V("twin: xarray option set for the duration of the reduction", ("C14",), "", "xarray.py", '        result = getattr(ds_broad, func)(dim=dim_tuple, **kwargs)', '        with xr.set_options(keep_attrs=keep_attrs):\n            result = getattr(ds_broad, func)(dim=dim_tuple, **kwargs)', expect="silent"),
     V("dtype promotion memoised with an untyped key", ("C14",), "R-MEMO", "xrdtypes.py", '        dtype = np.result_type(dtype, fill_value)\n    return dtype\n',
       '        dtype = _promote_for_fill_value(dtype, fill_value)\n    return dtype\n\n\n@functools.lru_cache\ndef _promote_for_fill_value(dtype: np.dtype, fill_value) -> np.dtype:\n    return np.result_type(dtype, fill_value)\n', must_mention="typed"),
     V("twin: dtype promotion memoised with typed=True", ("C14",), "", "xrdtypes.py", '        dtype = np.result_type(dtype, fill_value)\n    return dtype\n',
